@@ -3,6 +3,7 @@ import Cjet.Lemmas.DeflateReasm
 import Cjet.Lemmas.DeflateBytes
 import Cjet.Lemmas.DeflateNego
 import Cjet.Lemmas.DeflateReads
+import Cjet.Lemmas.DeflateFrames
 /-!
 # C19 — permessage-deflate: lossless round trip, bounded memory, legal negotiation
 
@@ -14,7 +15,8 @@ stream" — is proved for EVERY zlib output (`compress_never_truncates`,
 `compress_no_oob_for_any_zlib_output`).
 
 The model (`Cjet.Deflate`) follows the tree: `reasmGrowLoops` / `reasmNoBufferGuard` / `compressStrict` /
-`sendChecked` are regenerated from the source and say whether fixes F23 / F36 / F37 are present; the
+`sendChecked` are regenerated from the source and say whether fixes F23 / F36 / F37 are present
+(`fragFlagClearedByOpcode`: whether `ws_handle_frame` clears `is_frag_compressed` for frames picked by their opcode); the
 theorems about "the code now" are stated over these names, so re-introducing one of the defects breaks the
 build of this file.
 -/
@@ -296,6 +298,129 @@ theorem roundtrip_counterexample_before_fix :
     fun n => n + (n + 7) / 8 + (n + 63) / 64 + 5,
     fun x => ⟨⟨rfl, by simp⟩, by simp [tail_length], by simp [tail_length, flushMarkerMax]; omega⟩,
     by decide, by decide, by decide, by decide, ⟨-1, by decide, by decide⟩⟩
+
+/-! ## round trip for every presentation on the wire: fragments with control frames in between -/
+
+/-- ASSUMING zlib as in `roundtrip_given_zlib`: the message `send_frame` produces arrives unchanged in EVERY legal
+    presentation of its compressed body through `ws_handle_frame` — unfragmented, or cut into any fragments
+    (`f0`, then the `p.2`; empty ones included) with ANY sequence of ping / pong frames (`p.1`, at most 125 bytes
+    each) in front of ANY continuation frame (RFC 6455 §5.4).  Every ping is answered by a pong with the same
+    payload, in order; the payload is delivered exactly once (message callback when unfragmented, frame callback
+    with `last` otherwise); and the connection is back in its initial state — flags clear, nothing left in the
+    reassembly buffer — so the next message starts from scratch. -/
+theorem roundtrip_interleaved_given_zlib (zdeflate : Bytes → Option Bytes) (zinflate : Bytes → Option Bytes)
+    (dbound : Nat → Nat) (closeCode : Bytes → Nat) (x body : Bytes)
+    (hTail : zdeflate x = some (body ++ tail) ∧ body ≠ [])
+    (hInv : zinflate (body ++ tail) = some x)
+    (hBound : (body ++ tail).length ≤ dbound x.length + flushMarkerMax) :
+    sendFrameNow dbound zdeflate x = .sent body ∧
+      ∀ (op : Nat), (op = opText ∨ op = opBinary) →
+      ∀ (f0 : Bytes) (rest : List (List Ctl × Bytes)), f0 ++ (rest.map (·.2)).flatten = body →
+        (∀ p ∈ rest, ∀ k ∈ p.1, k.payload.length ≤ wsSmallFrame) →
+        runFramesNow zinflate closeCode Conn.init (present op f0 rest) =
+          (presentEvents op x rest, some Conn.init) := by
+  obtain ⟨hs, hmsg, _⟩ := roundtrip_given_zlib zdeflate zinflate dbound x body hTail hInv hBound
+  refine ⟨hs, fun op hop f0 rest hcut hctl => ?_⟩
+  show runFrames false true true zinflate closeCode Conn.init (present op f0 rest) = _
+  exact runFrames_present zinflate closeCode op hop body x f0 rest hcut hctl hTail.2 hmsg
+
+/-- the hypotheses are satisfiable and the statement is about something: the "stored" codec, the payload `AB`,
+    body `00 41 42` cut into three fragments (the second empty) with a ping, a pong and an empty ping in between -/
+example : ∃ (zd zi : Bytes → Option Bytes) (dbound : Nat → Nat) (x body f0 : Bytes) (rest : List (List Ctl × Bytes)),
+    (zd x = some (body ++ tail) ∧ body ≠ []) ∧ zi (body ++ tail) = some x ∧
+    (body ++ tail).length ≤ dbound x.length + flushMarkerMax ∧
+    f0 ++ (rest.map (·.2)).flatten = body ∧ (∀ p ∈ rest, ∀ k ∈ p.1, k.payload.length ≤ wsSmallFrame) ∧
+    presentEvents opBinary x rest = [.pong [1, 2], .pong [], .frame opBinary x true] :=
+  ⟨fun x => some ((0 :: x) ++ tail), fun s => some ((s.drop 1).take (s.length - 5)),
+    fun n => n + (n + 7) / 8 + (n + 63) / 64 + 5, [0x41, 0x42], [0, 0x41, 0x42], [0],
+    [([.ping [1, 2], .pong [3]], []), ([.ping []], [0x41, 0x42])],
+    ⟨rfl, by simp⟩, by decide, by decide, by decide, by decide, by decide⟩
+
+/-- … and for whole connections (zlib as two coupled state machines, as in `roundtrip_session_given_zlib`): ANY
+    sequence of ANY messages, each one text or binary, in its own presentation (own fragmentation, own control
+    frames between the fragments and in front of the message): every message is delivered once and unchanged,
+    every ping answered, and between two messages the connection is in its initial state. -/
+theorem roundtrip_session_interleaved_given_zlib {σd σi : Type}
+    (dbound : Nat → Nat)
+    (deflate : σd → Bytes → Bytes × σd) (inflate : σi → Bytes → Option (Bytes × σi))
+    (R : σd → σi → Prop)
+    (hz : ∀ sd si, R sd si → ∀ x, ∃ body si', body ≠ [] ∧ (deflate sd x).1 = body ++ tail ∧
+        (deflate sd x).1.length ≤ dbound x.length + flushMarkerMax ∧
+        inflate si (deflate sd x).1 = some (x, si') ∧ R (deflate sd x).2 si')
+    (closeCode : Bytes → Nat)
+    (msgs : List MsgSpec) (hm : ∀ m ∈ msgs, m.Legal) (sd : σd) (si : σi) (hR : R sd si) :
+    sessionIlOk dbound deflate inflate closeCode sd si msgs := by
+  induction msgs generalizing sd si with
+  | nil => trivial
+  | cons m rest ih =>
+    obtain ⟨body, si', hne, hb, hbd, hi, hR'⟩ := hz sd si hR m.x
+    obtain ⟨hop, hpre, hcut⟩ := hm m (by simp)
+    have h1 := roundtrip_interleaved_given_zlib (fun y => some (deflate sd y).1) (fun s => (inflate si s).map (·.1))
+      dbound closeCode m.x body ⟨by rw [hb], hne⟩ (by rw [← hb, hi]; rfl) (by rw [← hb]; exact hbd)
+    obtain ⟨hc, hfr⟩ := h1
+    simp only [sessionIlOk, hc]
+    refine ⟨?_, ?_⟩
+    · show runFrames false true true _ closeCode Conn.init (m.frames body) = _
+      unfold MsgSpec.frames MsgSpec.events
+      rw [runFrames_ctls _ closeCode Conn.init m.pre hpre]
+      have := hfr m.op hop (m.cut body).1 (m.cut body).2 (hcut body).1 (hcut body).2
+      change runFrames false true true _ closeCode Conn.init _ = _ at this
+      rw [this]
+    · rw [← hb, hi]
+      exact ih (fun m' h' => hm m' (by simp [h'])) (deflate sd m.x).2 si' hR'
+
+/-- the hypotheses are satisfiable: the counting "stored" codec; a message cut into one-byte fragments with a ping
+    in front of every continuation frame, behind a ping and a pong -/
+example : ∃ (dbound : Nat → Nat) (deflate : Nat → Bytes → Bytes × Nat) (inflate : Nat → Bytes → Option (Bytes × Nat))
+    (R : Nat → Nat → Prop) (m : MsgSpec),
+    (∀ sd si, R sd si → ∀ x, ∃ body si', body ≠ [] ∧ (deflate sd x).1 = body ++ tail ∧
+        (deflate sd x).1.length ≤ dbound x.length + flushMarkerMax ∧
+        inflate si (deflate sd x).1 = some (x, si') ∧ R (deflate sd x).2 si') ∧
+    m.Legal ∧ (m.cut [0, 7, 8]).2.length = 3 ∧ R 0 0 :=
+  ⟨fun n => n + (n + 7) / 8 + (n + 63) / 64 + 5,
+    fun n x => ((0 :: x) ++ tail, n + 1), fun n s => some ((s.drop 1).take (s.length - 5), n + 1),
+    fun a b => a = b,
+    ⟨[7, 8], opText, [.ping [9], .pong []], fun c => ([], c.map fun b => ([.ping [b]], [b]))⟩,
+    fun sd si h x => ⟨0 :: x, si + 1, by simp, rfl, by simp [tail_length, flushMarkerMax]; omega,
+      by simp [tail_length], by simp [h]⟩,
+    ⟨Or.inl rfl, by decide, fun c => ⟨by induction c with
+        | nil => rfl
+        | cons a r ih => simpa using ih,
+      by intro p hp k hk
+         simp only [List.mem_map] at hp
+         obtain ⟨b, _, rfl⟩ := hp
+         simp only [List.mem_singleton] at hk
+         subst hk
+         simp [Ctl.payload, wsSmallFrame]⟩⟩,
+    rfl, rfl⟩
+
+/-- The dispatch in front of the decompressor, code NOW, for ANY sequence of ANY frames (any opcodes, RSV and FIN
+    bits, data and control frames in any order — legal or not) and ANY inflater: never a copy outside the
+    reassembly buffer, never the buffer pointer used without a buffer (`frames_memory_safe` lifted from the
+    fragments of one message to everything `ws_handle_frame` can be fed). -/
+theorem dispatch_memory_safe (inflate : Bytes → Option Bytes) (closeCode : Bytes → Nat) (frames : List Frame) :
+    Ev.wild ∉ (runFramesNow inflate closeCode Conn.init frames).1 :=
+  runFrames_safe fragFlagClearedByOpcode inflate closeCode frames Conn.init conn_init_sane
+
+/-- What the statement excludes: a `ws_handle_frame` that clears `is_frag_compressed` for every frame whose opcode
+    is not "continuation" (`clr = true`; NOT the code as committed — `fragFlagClearedByOpcode` is regenerated from
+    the source).  With a zlib satisfying all three hypotheses, payload `A`, body `00 41` in two fragments and one
+    empty ping between them: the ping is answered, but the application receives the second fragment raw, as the
+    whole message, and the first fragment stays in the reassembly buffer. -/
+theorem interleaved_counterexample_if_flag_cleared :
+    ∃ (zd : Bytes → Option Bytes) (zi : Bytes → Option Bytes) (dbound : Nat → Nat),
+      (∀ x : Bytes, (zd x = some ((0 :: x) ++ tail) ∧ (0 :: x) ≠ []) ∧ zi ((0 :: x) ++ tail) = some x ∧
+        ((0 :: x) ++ tail).length ≤ dbound x.length + flushMarkerMax) ∧
+      runFrames true true true zi (fun _ => 1000) Conn.init (present opBinary [] [([.ping []], [0, 0x41])]) =
+        ([.pong [], .frame opBinary [0, 0x41] true], some ⟨WsFlags.init, RBuf.init⟩) ∧
+      (runFrames true true true zi (fun _ => 1000) Conn.init (present opBinary [0] [([.ping []], [0x41])])).2.map
+        (fun c => c.buf.live) = some true ∧
+      runFrames false true true zi (fun _ => 1000) Conn.init (present opBinary [] [([.ping []], [0, 0x41])]) =
+        ([.pong [], .frame opBinary [0x41] true], some Conn.init) :=
+  ⟨fun x => some ((0 :: x) ++ tail), fun s => some ((s.drop 1).take (s.length - 5)),
+    fun n => n + (n + 7) / 8 + (n + 63) / 64 + 5,
+    fun x => ⟨⟨rfl, by simp⟩, by simp [tail_length], by simp [tail_length, flushMarkerMax]; omega⟩,
+    by decide, by decide, by decide⟩
 
 /-! ## negotiation -/
 
